@@ -125,8 +125,9 @@ def do_append(ex, st, frame, ins, args):
             st.assume(forall([i], z3.Implies(z3.And(0 <= i, i < ln), z3.Select(new, i) == z3.Select(src, add0(off, i))),
                                 patterns=[z3.Select(new, i)]))
             src2 = z3.Select(h, arr2)
-            st.assume(forall([i], z3.Implies(z3.And(0 <= i, i < ln2), z3.Select(new, ln + i) == z3.Select(src2, add0(off2, i))),
-                                patterns=[z3.Select(new, ln + i)]))
+            # second part, indexed by the position in the result (a pattern without arithmetic)
+            st.assume(forall([i], z3.Implies(z3.And(ln <= i, i < ln + ln2), z3.Select(new, i) == z3.Select(src2, add0(off2, i - ln))),
+                                patterns=[z3.Select(new, i)]))
             st.heaps[name] = z3.Store(h, na, new)
     return Val(rt, [na, z3.IntVal(0), z3.simplify(ln + ln2)])
 
